@@ -308,3 +308,55 @@ def check(case):
         info['records'] = sum(len(v) for k, v in normalise(inproc[0]).items() if '/' in k and isinstance(v, list))
         info['tie_sensitive'] = diff(normalise(inproc[0]), normalise(inproc[-1])) is not None if n > 1 else False
     return info
+
+
+# ------------------------------------------------------------------ hash-seed independence (sub-processes)
+def digest_of(case):
+    import hashlib
+    import json
+    spec = case['model']
+    A = run_seeded(spec, [sum(spec['T'])], case['seed'])
+    return hashlib.sha1(json.dumps(A, sort_keys=True, default=repr).encode()).hexdigest()
+
+
+def check_hashseed(case):
+    """The same seeded run in fresh interpreters with other PYTHONHASHSEED values gives the same normalised data."""
+    import json
+    import os
+    import subprocess
+    import sys
+    import tempfile
+    here = digest_of(case)
+    fd, path = tempfile.mkstemp(suffix='.json', prefix='verif-c14-')
+    os.close(fd)
+    try:
+        with open(path, 'w') as f:
+            json.dump(case, f)
+        for hs in case.get('hash_seeds', ['1', '4242']):
+            env = dict(os.environ)
+            env['PYTHONHASHSEED'] = hs
+            out = subprocess.run([sys.executable, '-B', '-m', 'engines.repro', path], env=env, cwd=os.path.dirname(
+                os.path.dirname(os.path.abspath(__file__))), stdout=subprocess.PIPE, stderr=subprocess.PIPE, text=True,
+                timeout=600)
+            got = out.stdout.strip().splitlines()[-1] if out.stdout.strip() else ''
+            if out.returncode != 0 or len(got) != 40:
+                raise RuntimeError(f'hash-seed sub-process failed: rc={out.returncode} {out.stderr[-400:]}')
+            if got != here:
+                raise Violation('C14.hash-seed', f'the same seeded run gives different recorded data / final state under '
+                                f'PYTHONHASHSEED={hs} than under PYTHONHASHSEED={os.environ.get("PYTHONHASHSEED")}')
+    finally:
+        os.unlink(path)
+    return {'mode': 'hash', 'tie_sensitive': True, 'records': 30}
+
+
+if __name__ == '__main__':
+    import contextlib
+    import io
+    import json
+    import sys
+    with open(sys.argv[1]) as f:
+        c = json.load(f)
+    buf = io.StringIO()
+    with contextlib.redirect_stdout(buf):
+        d = digest_of(c)
+    print(d)
